@@ -58,6 +58,11 @@ THEOREMS = [
     "Pyribs.C20.clim_contains",
     "Pyribs.C20.clim_attained",
     "Pyribs.C20.clim_explicit",
+    "Pyribs.C20.gridHeatmap2_fields",
+    "Pyribs.C20.heatmap1d_clim",
+    "Pyribs.C20.grid1d_clim",
+    "Pyribs.C20.cvt1d_clim",
+    "Pyribs.C20.widen_contains",
     "Pyribs.C20.cvt2_cell_colour",
     "Pyribs.C20.nonvacuous_grid",
     "Pyribs.C20.nonvacuous_cvt1d",
